@@ -56,6 +56,12 @@ CHECKS = {
  "C16": dict(cat="fault_enumeration", tech="enumerated teardown matrix at synctest quiescence; teardown-finished hook events, witness client, goroutine-snapshot leak check, process-wide deadlock watchdog",
    text="All 160 cause x buffer-condition x order x will x CleanSession cells are executed against the real broker with really full rings (clients that stop reading); completion of teardown is decided from hook events and goroutine state at quiescence.",
    note="bounded time = quiescence reached with all goroutines gone; watchdog expiry without an all-parked snapshot is inconclusive", ref="3/C16"),
+ "C17": dict(cat="exploration", tech="strict reference-parser monitor on every subscriber stream + per-(subscriber,publisher,topic,QoS) sequence monitor under concurrent stress, also with the Go race detector",
+   text="Dozens of concurrent runs with up to 12 publishers, slow/bursty subscribers, in-process publishers, retained updates and churning clients; every received byte is strict-parsed, every payload CRC-checked, sequence numbers per publisher/topic/QoS must increase. Held on the executed schedules.",
+   note="real time over net.Pipe; quiescence by protocol barriers", ref="3/C17"),
+ "C18": dict(cat="exploration", tech="Go race detector (-race, reports parsed from GORACE logs) over concurrent broker, ring and ack-queue workloads with measured overlap counters",
+   text="The race detector observes workloads W1-W7; any report with a library frame is a violation keyed by the pair of innermost library functions; overlap counters (e.g. thousands of deliveries entering writeMessage during the target's teardown) are measured in the same processes and must exceed floors.",
+   note="absence of reports on executed schedules only; W7 (same client id reconnecting during teardown) is known finding F-C18-1", ref="3/C18"),
 }
 PENDING = {}
 ALL = ["C%02d" % i for i in range(1, 21)]
